@@ -390,7 +390,7 @@ func valueTypeName(t store.ValueType) string {
 	return "none"
 }
 
-var c18Members = []string{`"rid":"a.b"`, `"rid":"a"`, `"rid":""`, `"rid":"a.*"`, `"rid":"a..b"`, `"rid":null`, `"rid":5`, `"rid":"a?q=1"`,
+var c18Members = []string{`"rid":"a.b"`, `"rid":"a"`, `"rid":""`, `"rid":"a.*"`, `"rid":"a..b"`, `"rid":null`, `"rid":5`, `"rid":"a?q=1"`, `"rid":"a.~tmp!"`, `"rid":"~"`, `"rid":"a b"`, `"rid":"a.\u007f"`, `"rid":"!.}"`,
 	`"soft":true`, `"soft":false`, `"soft":null`, `"soft":1`,
 	`"action":"delete"`, `"action":"other"`, `"action":null`, `"action":1`,
 	`"data":{"a":1}`, `"data":[1,2]`, `"data":1`, `"data":"s"`, `"data":null`, `"data":{}`, `"data":{"rid":"x"}`,
